@@ -422,6 +422,10 @@ func (s *SMT) traverse() (err lib.ErrorI) {
 			currentKey = s.current.RightChildKey
 		}
 		s.stats.TraverseSteps++
+		// a node without children cannot be descended into (malformed or partial tree)
+		if len(currentKey) == 0 {
+			return ErrInvalidMerkleTree()
+		}
 		// load current node from the store
 		s.current, err = s.getNode(currentKey)
 		if err != nil {
@@ -770,7 +774,13 @@ func (s *SMT) GetMerkleProof(k []byte) ([]*lib.Node, lib.ErrorI) {
 // VerifyProof verifies a Sparse Merkle Tree proof for a given value
 // reconstructing the root hash and comparing it against the provided root hash
 // depending on the proof type (membership or non-membership)
-func (s *SMT) VerifyProof(k []byte, v []byte, validateMembership bool, root []byte, proof []*lib.Node) (bool, lib.ErrorI) {
+func (s *SMT) VerifyProof(k []byte, v []byte, validateMembership bool, root []byte, proof []*lib.Node) (valid bool, e lib.ErrorI) {
+	// a malformed proof (bad node keys, missing siblings) must be rejected, never crash the caller
+	defer func() {
+		if r := recover(); r != nil {
+			valid, e = false, ErrInvalidMerkleTreeProof()
+		}
+	}()
 	// shorthand for the length of the proof slice
 	proofLen := len(proof)
 	// the proof slice must contain at least two nodes: the leaf node and its sibling
@@ -879,6 +889,11 @@ func (s *SMT) VerifyProof(k []byte, v []byte, validateMembership bool, root []by
 	// navigates the tree downward
 	if err := smt.traverse(); err != nil {
 		return false, err
+	}
+	// the traversal must end on the proven node itself: ending on a sibling stub means the
+	// proof says nothing about this key (e.g. an honest proof for a different key)
+	if !bytes.Equal(smt.current.Key.bytes(), proof[0].Key) {
+		return false, nil
 	}
 	// Verify whether the key exists in the tree and what kind of proof is being validated
 	// (membership or non-membership).
